@@ -107,10 +107,12 @@ def judge(ctx, q, data, info):
         ctx.count("inputs-with-names-built-at-run-time")
     if ctx.rnd.random() < 0.25:
         # a caller-supplied name list (a fresh list object every time, contents vary from call to call)
-        names = ctx.rnd.sample(refimpl.OPERATOR_NAMES + ["Filter", "select", "where"], ctx.rnd.randint(1, 6))
+        names = ctx.rnd.sample(refimpl.OPERATOR_NAMES + ["Filter", "select", "where"], ctx.rnd.randint(0, 6))  # (also no name at all: nothing is an operator then)
+        if not names and ctx.rnd.random() < 0.5:
+            names = ()
         ctx.count("custom-name-list")
         try:
-            out = change_extension_functions_to_calls(arg, list(names))
+            out = change_extension_functions_to_calls(arg, list(names) if isinstance(names, list) else names)
         except Exception as e:
             ctx.case(key, True)
             ctx.violation(f"exc:{type(e).__name__}", f"{e} | names={names} in: {witness['query'][:300]}", witness)
@@ -208,12 +210,15 @@ SNIPPET_TEXTS = [
     "ds.Count()", "cfg.jets.Where(lambda j: j.pt > cfg.cut)", "cfg.jets.Select(lambda a: a.trks.Count()).First()", "Count(cfg.jets)",
     "cfg.jets.Select(lambda j: j.pt).Sum()", "ds.Select(lambda e: e.x).Max()", "cfg.jets.select(lambda j: j.pt)", "ds.SelectMany(lambda e: e.jets).Count()",
     "cfg.trks.Aggregate(0, lambda a, b: a + b)", "cfg.jets.First(default=cfg.jets.Count())",
+    "e.Sum[0](41)", "e.Max['up'](cfg.jets.Count())", "cfg.Select[float](lambda j: j.pt)", "e.jets.Where[1:](lambda j: j.ok).Count()",
     "fit.Result()", "cfg.jets.ResultParquet('f', ['c'])", "cfg.jets.Counter().Count()", "cfg.jets.Selected(lambda j: j.trks.Count())", "cfg.FirstOrDefault(cfg.jets.First())",
 ]
 SNIPPETS = [(lambda rnd, t=t: astx.parse_expr(t)) for t in SNIPPET_TEXTS]
 
 
 DIRECTED = [
+    # an operator-named data field that is indexed, the element called: no seq.Op(args...)
+    "EventDataset().Select(lambda e: e.Sum[0](41) + e.Max['up'](e.jets.Count()))", "cfg.Select[float](lambda j: j.trks.Count())",
     "EventDataset().Select(lambda e: e.jets.Where(lambda j: j.pt > 1).Select(lambda j: j.trks.Count()).Max())",
     "EventDataset().Select(lambda e: e.jets.Select(lambda j: j.pt).Sum() + e.jets.Select(lambda j: j.pt).Min())",
     "EventDataset().Select(lambda e: e.jets.Select(lambda j: j.pt).Aggregate(0, lambda a, v: a + v))",
